@@ -20,7 +20,7 @@ META = {
     "technique": "exhaustive enumeration of small instances per problem class x admissible weights; full truth table of to_qubo()/to_quso() over all formulation variables; every ground state decoded by the real convert_solution and compared with brute-force reference feasibility/cost",
     "text": "SetCover (|U|<=3, <=3 subsets, weight patterns, log_trick), VertexCover (all graphs on <=4 vertices incl. self-loops, two label schemes), BILP (N<=3, m<=2, "
             "entries from {-1,0,1,2}, feasible by construction), JobSequencing (<=3 jobs of length <=3, 1-3 workers, log_trick), GraphPartitioning (all graphs on 2 and 4 vertices; 6 in "
-            "thorough; edge sets and unit-weight dicts), NumberPartitioning (<=5 numbers from 1..4), AlternatingSectorsChain (N<=6). For each instance: is_solution_valid == reference feasibility on every "
+            "thorough; edge sets and unit-weight dicts), NumberPartitioning (<=5 numbers from 1..4, plus near-miss partitions of numbers around 1e5..1e6), AlternatingSectorsChain (N<=6). For each instance: is_solution_valid == reference feasibility on every "
             "assignment (boolean and spin, list and dict), convert_solution decodes both forms consistently, strict weights => ground energy = optimal cost and EVERY ground state decodes "
             "feasible-optimal, default weights => ground energy = optimal cost and SOME ground state does; problem-specific solve_bruteforce is feasible-optimal.",
     "note": "Bounded instance sizes as listed; formulations with more than 18 variables (unary JobSequencing) are skipped and counted. Reference problem definitions are in this file.",
@@ -107,6 +107,9 @@ def gen_cases(tier):
             for S in itertools.combinations_with_replacement((1, 2, 3, 4), n):
                 for typ in ("list", "tuple"):
                     yield {"cls": "NumberPartitioning", "S": list(S), "type": typ}
+        # magnitude slice: near-miss partitions of large numbers (all products stay exact in doubles)
+        for S in ([100001, 100000], [500000, 500000], [250000, 250001, 3, 3], [300000, 200000, 500000], [700000, 300000, 400001, 600000], [1000001, 999999, 1]):
+            yield {"cls": "NumberPartitioning", "S": list(S), "type": "list"}
         for S in ([1, -1], [2, -1, 1], [3, -1, -2, 4], [-2, -2], [1, 2, -3, 4], [-1, -2, -3]):
             for typ in ("list", "tuple"):
                 yield {"cls": "NumberPartitioning", "S": list(S), "type": typ}
@@ -495,7 +498,7 @@ def run(ctx):
                   "BILP": "N<=2,m<=2 and N=3,m=1 over {-1,0,1,2}" + ("" if ctx.quick else "; N=3,m=2 with c over {-1,1,2}") + ", b = S x0 for every x0",
                   "JobSequencing": "<=3 jobs of length 1..3, 1-3 workers, log_trick both, <=%d formulation variables" % MAXV,
                   "GraphPartitioning": "all graphs without isolated vertices on 2, 4" + ("" if ctx.quick else ", 6 (<=5 edges)") + " vertices; edge sets and unit-weight dicts",
-                  "NumberPartitioning": "multisets of <=5 numbers from 1..4, list and tuple", "AlternatingSectorsChain": "N<=6, chain length 2,3, four strength pairs, pbc both",
+                  "NumberPartitioning": "multisets of <=5 numbers from 1..4, list and tuple; 6 instances with numbers around 1e5..1e6 (near misses by 1)", "AlternatingSectorsChain": "N<=6, chain length 2,3, four strength pairs, pbc both",
                   "weights": "strict: threshold + {1/8, 1}, B in {1,2} and threshold + 1/8 with B = 1/2; defaults for the five classes of the statement"}
     ctx.rule = "case = one problem instance (all weights/forms/assignments inside); all are non-trivial"
     explore_cases(ctx, gen_cases(ctx.tier), check, label="C10")
